@@ -4,6 +4,7 @@ import (
 	"context"
 	"errors"
 	"fmt"
+	"net"
 	"net/http/httptest"
 	"strings"
 	"sync"
@@ -73,13 +74,67 @@ func (h *connHandler) WaitCtx(ctx context.Context, token int) (int, error) {
 	}
 }
 
+// NoteWait: a notification whose handler waits for its context (or a release)
+func (h *connHandler) NoteWait(ctx context.Context, token int) {
+	h.env.tr.ev("h.start", token, "notewait")
+	h.env.execs.Store(token, h.env.execCount(token)+1)
+	ch := h.env.holdOf(token)
+	select {
+	case <-ctx.Done():
+		h.env.tr.ev("h.ctxdone", token)
+		h.env.tr.ev("h.end", token, true)
+	case <-ch:
+		h.env.tr.ev("h.end", token, ctx.Err() != nil)
+	}
+}
+
+// Sub: a stream of n values token*1000+i; the producer goroutine obeys the stream script of the env
+func (h *connHandler) Sub(ctx context.Context, token int, n int) (<-chan int, error) {
+	h.env.tr.ev("h.start", token, "sub")
+	h.env.execs.Store(token, h.env.execCount(token)+1)
+	buf := h.env.subBuf
+	ch := make(chan int, buf)
+	hold := h.env.holdOf(token)
+	go func() {
+		defer func() {
+			h.env.tr.ev("prod.close", token)
+			close(ch)
+		}()
+		for i := 0; i < n; i++ {
+			v := token*1000 + i
+			if h.env.prodGate != nil {
+				h.env.prodGate(token, i)
+			}
+			h.env.tr.ev("prod.try", token, v)
+			select {
+			case ch <- v:
+				h.env.tr.ev("prod.send", token, v)
+			case <-ctx.Done():
+				h.env.tr.ev("h.ctxdone", token)
+				return
+			}
+		}
+		if hold != nil {
+			select {
+			case <-hold:
+			case <-ctx.Done():
+				h.env.tr.ev("h.ctxdone", token)
+			}
+		}
+	}()
+	h.env.tr.ev("h.end", token, ctx.Err() != nil)
+	return ch, nil
+}
+
 type connClient struct {
-	Echo    func(ctx context.Context, token int) (int, error)
-	Retry   func(ctx context.Context, token int) (int, error) `retry:"true"`
-	Fail    func(ctx context.Context, token int) (int, error)
-	Big     func(ctx context.Context, token int, size int) (string, error)
-	Note    func(token int) error `notify:"true"`
-	WaitCtx func(ctx context.Context, token int) (int, error)
+	Echo     func(ctx context.Context, token int) (int, error)
+	Retry    func(ctx context.Context, token int) (int, error) `retry:"true"`
+	Fail     func(ctx context.Context, token int) (int, error)
+	Big      func(ctx context.Context, token int, size int) (string, error)
+	Note     func(token int) error `notify:"true"`
+	WaitCtx  func(ctx context.Context, token int) (int, error)
+	NoteWait func(ctx context.Context, token int) error `notify:"true"`
+	Sub      func(ctx context.Context, token int, n int) (<-chan int, error)
 }
 
 type callRec struct {
@@ -93,18 +148,21 @@ type callRec struct {
 }
 
 type connEnv struct {
-	tr      *tracer
-	srv     *jsonrpc.RPCServer
-	ts      *httptest.Server
-	proxy   *faultProxy
-	cl      connClient
-	closer  jsonrpc.ClientCloser
-	mu      sync.Mutex
-	holds   map[int]chan struct{}
-	execs   sync.Map
-	calls   map[int]*callRec
-	wg      sync.WaitGroup
-	nextTok int32
+	tr        *tracer
+	srv       *jsonrpc.RPCServer
+	ts        *httptest.Server
+	proxy     *faultProxy
+	cl        connClient
+	closer    jsonrpc.ClientCloser
+	mu        sync.Mutex
+	holds     map[int]chan struct{}
+	execs     sync.Map
+	calls     map[int]*callRec
+	wg        sync.WaitGroup
+	nextTok   int32
+	subBuf    int
+	prodGate  func(token, i int)
+	srvCancel context.CancelFunc
 }
 
 func (e *connEnv) execCount(token int) int {
@@ -162,7 +220,11 @@ func newConnEnv(o connOpts) *connEnv {
 	sopts := []jsonrpc.ServerOption{jsonrpc.WithServerPingInterval(o.srvPing)}
 	e.srv = jsonrpc.NewServer(sopts...)
 	e.srv.Register("C", &connHandler{env: e})
-	e.ts = httptest.NewServer(e.srv)
+	baseCtx, srvCancel := context.WithCancel(context.Background())
+	e.srvCancel = srvCancel
+	e.ts = httptest.NewUnstartedServer(e.srv)
+	e.ts.Config.BaseContext = func(net.Listener) context.Context { return baseCtx }
+	e.ts.Start()
 	e.proxy = newFaultProxy(strings.TrimPrefix(e.ts.URL, "http://"))
 	if o.backoffMin == 0 {
 		o.backoffMin, o.backoffMax = 5*time.Millisecond, 20*time.Millisecond
@@ -246,6 +308,9 @@ func (e *connEnv) call(kind string, ctx context.Context, extra ...int) int {
 			v = token
 		case "waitctx":
 			v, err = e.cl.WaitCtx(ctx, token)
+		case "notewait":
+			err = e.cl.NoteWait(ctx, token)
+			v = token
 		}
 		out, et := classify(token, v, err)
 		e.mu.Lock()
@@ -318,6 +383,9 @@ func (e *connEnv) finish(name string, params map[string]interface{}) *connRun {
 	}
 	time.Sleep(5 * time.Millisecond)
 	e.proxy.close()
+	if e.srvCancel != nil {
+		e.srvCancel()
+	}
 	e.ts.CloseClientConnections()
 	go e.ts.Close()
 	r := &connRun{Scenario: name, Params: params, Events: e.tr.snapshot(), Accepts: e.proxy.acceptCount(), AllDone: allDone, CloserOK: closerOK}
